@@ -77,6 +77,11 @@ pub fn gen_c15(seed: u64, thorough: bool) -> Plan {
         serde_json::json!({ "link_cut": { "quic_at_ms": at } })
     } else if link_cut {
         serde_json::json!({ "link_cut": { "dir": if g.chance(50) { "c2s" } else { "s2c" }, "offset": g.range(0, 3000) } })
+    } else if transport == Transport::Quic && g.chance(35) {
+        // the datagram link goes silent for 3-12 s at a drawn moment and comes back: QUIC repairs that by itself, whatever
+        // was written before a close is still delivered, everything is released in the end
+        // (not during the first second: an outage in the middle of the QUIC handshakes is C08's kind of trouble, not an ending)
+        serde_json::json!({ "quic_outage": { "at_ms": *g.pick(&[1000u64, 1500, 2500, 4000, 6000]), "for_ms": g.range(3_000, 8_000) } })
     } else if g.chance(25) {
         // next to the flows, one to three applications leave a local handshake unfinished (and close, or just stay): their
         // sockets and tasks are released as well - at the client's handshake deadline at the latest
@@ -127,6 +132,12 @@ pub fn execute_c15(plan: &Plan) -> Outcome {
         knobs.udp_partition_ns = (ms * 1_000_000, u64::MAX);
         knobs.udp_fault_ports = vec![SERVER_PORT];
     }
+    let outage = plan.extra.get("quic_outage").filter(|v| v.is_object());
+    if let Some(o) = outage {
+        let at = o["at_ms"].as_u64().unwrap_or(0) * 1_000_000;
+        knobs.udp_partition_ns = (at, at + o["for_ms"].as_u64().unwrap_or(5000) * 1_000_000);
+        knobs.udp_fault_ports = vec![SERVER_PORT];
+    }
     let link = cut.filter(|_| quic_cut_ms.is_none()).map(|c| {
         let s = DirScript { truncate_at: Some(c["offset"].as_u64().unwrap_or(0)), after_truncate: 2, ..Default::default() };
         if c["dir"].as_str() == Some("s2c") { (DirScript::default(), s) } else { (s, DirScript::default()) }
@@ -147,7 +158,7 @@ pub fn execute_c15(plan: &Plan) -> Outcome {
     let quic = plan.config.transport == Transport::Quic;
     // (on a lossy datagram link the idle timer is re-armed by the survivor's own probes and the closing period is stretched by
     // backed-off probe time-outs: 49 s were seen on the unchanged tree - quinn's clocks, not the relay's)
-    let slack_ns = if quic && plan.knobs.dgram_loss_pm > 0 { 75_000_000_000u64 } else if quic { 40_000_000_000u64 } else { 10_000_000_000u64 } + 8 * (plan.knobs.latency_us + plan.knobs.jitter_us) * 1000;
+    let slack_ns = if quic && (plan.knobs.dgram_loss_pm > 0 || plan.extra.get("quic_outage").is_some_and(|v| v.is_object())) { 75_000_000_000u64 } else if quic { 40_000_000_000u64 } else { 10_000_000_000u64 } + 8 * (plan.knobs.latency_us + plan.knobs.jitter_us) * 1000;
     if let Some(e) = &run.startup_err {
         v.push(Violation::new("C15", format!("C15/startup/{cell}"), e.clone()));
     } else {
@@ -170,7 +181,7 @@ pub fn execute_c15(plan: &Plan) -> Outcome {
             }
             if let Some(fault) = &f.target_fault {
                 // the application must learn that the flow is dead
-                let budget = if fault == "blackhole" { 140_000_000_000u64 } else { slack_ns };
+                let budget = if fault == "blackhole" { 140_000_000_000u64 } else { slack_ns } + plan.extra.get("quic_outage").and_then(|o| o.get("for_ms")).and_then(|v| v.as_u64()).unwrap_or(0) * 2_000_000;
                 match (o.app.first_write_ns, &o.app.end) {
                     (Some(t0), Some(_)) if o.app.end_ns.saturating_sub(t0) <= budget => {}
                     (Some(t0), Some(_)) => v.push(Violation::new("C15", sig("late-end-at-app"), format!("flow {ix}: application saw the end {:.1} s after its first byte", (o.app.end_ns - t0) as f64 / 1e9))),
@@ -299,6 +310,7 @@ pub fn execute_c15(plan: &Plan) -> Outcome {
         *probes.entry(format!("ending_{}", kind_of(f, link_cut))).or_insert(0) += 1;
     }
     probes.insert("link_cuts_fired".to_owned(), pobs.cut_ns.len() as u64);
+    probes.insert("quic_outages".to_owned(), outage.is_some() as u64);
     probes.insert("abandoned_local_handshakes".to_owned(), plan.extra.get("abandoned_handshakes").and_then(|v| v.as_array()).map(|a| a.len() as u64).unwrap_or(0));
     probes.insert("runs_timed_out".to_owned(), run.timed_out as u64);
     Outcome {
